@@ -166,17 +166,29 @@ func vScanNums(s string, f func(tok string, isNum bool)) {
 	for i < len(s) {
 		c := s[i]
 		isDigit := c >= '0' && c <= '9'
-		isSign := c == '-' && !prevNum && i+1 < len(s) && s[i+1] >= '0' && s[i+1] <= '9'
+		isSign := c == '-' && !prevNum && i+1 < len(s) && s[i+1] >= '1' && s[i+1] <= '9'
 		if isDigit || isSign {
 			j := i + 1
 			for j < len(s) && s[j] >= '0' && s[j] <= '9' {
 				j++
 			}
+			tok := s[i:j]
+			digits := tok
+			if digits[0] == '-' {
+				digits = digits[1:]
+			}
+			if len(digits) > 1 && digits[0] == '0' {
+				// not a canonical decimal rendering (e.g. "00" in Fate text): plain text
+				chunk += tok
+				prevNum = true
+				i = j
+				continue
+			}
 			if chunk != "" {
 				f(chunk, false)
 				chunk = ""
 			}
-			f(s[i:j], true)
+			f(tok, true)
 			prevNum = true
 			i = j
 			continue
